@@ -18,6 +18,9 @@ type C10Case struct {
 	Axis    int    `json:"axis"` // Repeat: -1 = AllAxes
 	Repeats []int  `json:"repeats,omitempty"`
 	Via     string `json:"via"` // method | pkg
+	// AliasT[i]: operand i is not built on its own but is a lazily transposed whole view of operand i-1
+	// (both square matrices): the same storage, the same first element, other strides
+	AliasT []bool `json:"aliasT,omitempty"`
 }
 
 func init() { register("C10.assemble", func() Case { return &C10Case{} }) }
@@ -44,7 +47,7 @@ func (c *C10Case) NTKey() string {
 	for _, o := range c.Ops {
 		ls = append(ls, fmt.Sprintf("%v%v", o.Shape, o.L))
 	}
-	return fmt.Sprintf("%s|%s|%v|%d|%v|%s", c.Op, c.DT, ls, c.Axis, c.Repeats, c.Via)
+	return fmt.Sprintf("%s|%s|%v|%d|%v|%s|%v", c.Op, c.DT, ls, c.Axis, c.Repeats, c.Via, c.AliasT)
 }
 
 // concatModel is NumPy's concatenate; ok=false when the operands do not fit.
@@ -151,6 +154,20 @@ func (c *C10Case) Run() string {
 	var arrs []Arr
 	var ts []*tensor.Dense
 	for i := range c.Ops {
+		if i > 0 && i < len(c.AliasT) && c.AliasT[i] && len(arrs[i-1].Shape) == 2 && arrs[i-1].Shape[0] == arrs[i-1].Shape[1] && eqInts(c.Ops[i].Shape, arrs[i-1].Shape) {
+			v, err := ts[i-1].Slice()
+			if err != nil {
+				return inconclusive
+			}
+			vd := v.(*tensor.Dense)
+			if err := vd.T(); err != nil {
+				return inconclusive
+			}
+			arrs = append(arrs, arrs[i-1].Permute([]int{1, 0}))
+			ts = append(ts, vd)
+			rec.Class("operand:transposed-view-of-the-previous-one")
+			continue
+		}
 		b, msg := buildOpnd(&c.Ops[i], d)
 		if msg != "" {
 			return msg
@@ -391,9 +408,32 @@ func genC10(rt *rapid.T, op string, d DT, unfit bool) *C10Case {
 		}
 		c.Ops = append(c.Ops, genOpnd(rt, s, rapid.SampledFrom(c10Layouts).Draw(rt, "l"), lo+int64(i)*40, hi+int64(i)*40, 0, fmt.Sprintf("o%d", i)))
 	}
+	if !unfit && rank == 2 && shape[0] == shape[1] && shape[0] >= 2 && len(c.Ops) >= 2 && rapid.IntRange(0, 2).Draw(rt, "alias") == 0 {
+		// square operands: one of them is a lazily transposed view of its predecessor
+		k := rapid.IntRange(1, len(c.Ops)-1).Draw(rt, "aliaswhich")
+		if eqInts(c.Ops[k].Shape, c.Ops[k-1].Shape) && c.Ops[k-1].L.Final == "" {
+			c.AliasT = make([]bool, len(c.Ops))
+			c.AliasT[k] = true
+		}
+	}
 	if unfit && len(c.Ops) >= 2 {
 		o := &c.Ops[len(c.Ops)-1]
-		switch rapid.IntRange(0, 2).Draw(rt, "unfitkind") {
+		switch rapid.IntRange(0, 3).Draw(rt, "unfitkind") {
+		case 3: // the same dimensions in another order (same rank, same number of elements)
+			if len(o.Shape) >= 2 {
+				o.Shape[0], o.Shape[len(o.Shape)-1] = o.Shape[len(o.Shape)-1]+1, o.Shape[0]-1+1
+				o.Shape[0], o.Shape[len(o.Shape)-1] = o.Shape[0]-1, o.Shape[len(o.Shape)-1]
+				if o.Shape[0] == o.Shape[len(o.Shape)-1] { // a symmetric shape: make the sum equal but the shape different
+					o.Shape[0]++
+					if o.Shape[len(o.Shape)-1] > 1 {
+						o.Shape[len(o.Shape)-1]--
+					} else {
+						o.Shape[0]++
+					}
+				}
+			} else {
+				o.Shape = append(o.Shape, 2)
+			}
 		case 0: // rank mismatch
 			o.Shape = append(o.Shape, 2)
 		case 1: // off-axis mismatch (for Stack: any axis)
